@@ -1,0 +1,18 @@
+//go:build verif
+
+package udp
+
+import (
+	"net"
+
+	"github.com/DataDog/datadog-traceroute/common"
+	"github.com/DataDog/datadog-traceroute/packets"
+)
+
+// VerifNewDriver builds the real UDP driver over the given sink/source with
+// the source endpoint the entry point would have discovered.
+func VerifNewDriver(cfg *UDPv4, srcIP net.IP, srcPort uint16, sink packets.Sink, source packets.Source) common.TracerouteDriver {
+	cfg.srcIP = srcIP
+	cfg.srcPort = srcPort
+	return newUDPDriver(cfg, sink, source)
+}
